@@ -35,6 +35,7 @@ pub fn run(ctx: &Ctx) -> i32 {
         random_per_enc: ctx.n(6_000, 200_000),
         profile: Profile { max_tokens: ctx.tier.pick(14, 48), small_caps_weight: 110, queries: true, exact_queries: false, modes: &hist::ALL_MODES, sinks: &hist::ALL_SINKS, bom_prefix_weight: 48 },
         fills: vec![0xA5, 0x00, 0xFF, 1, 2, 3],
+        mixed_sinks: true,
     };
     let mut st = dech::run_dec_check(ctx, &dc);
     if !fw::should_stop() {
